@@ -1,4 +1,147 @@
+/-
+C09 — word-form search follows the exact / normalized / lemmatized procedure.
+Model: `findHelper`, `formMatch`, `findEntries` (`Model/Api.lean`, `Model/Query.lean`); the
+normalizer function `norm` is a parameter: every theorem holds for any normalizer.
+-/
 import WnVerif.Model.Api
+import WnVerif.Model.Add
+import WnVerif.Lemmas.DbAux
 namespace WnVerif.Props.C09
-theorem placeholder_true : True := trivial
+open WnVerif.Db
+
+/-- the form condition of the three `find_*` queries: a stored form of the entry equals one of
+the searched strings, or (normalizer active) its stored normalized form does; only the lemma
+(rank 0) counts when `search_all_forms` is off -/
+theorem C09_form_condition (db : Db) (forms : List String) (normalized allForms : Bool) (entry : Nat) :
+    formMatch db forms normalized allForms entry = true ↔
+      ∃ f ∈ db.forms, f.entry = entry ∧
+        (f.form ∈ forms ∨ (normalized = true ∧ ∃ n, f.norm = some n ∧ n ∈ forms)) ∧
+        (allForms = true ∨ f.rank = 0) := by
+  simp only [formMatch, List.any_eq_true, Bool.and_eq_true, Bool.or_eq_true, beq_iff_eq,
+    List.contains_iff_mem, decide_eq_true_eq]
+  constructor
+  · rintro ⟨f, hf, ⟨he, hm⟩, hr⟩
+    refine ⟨f, hf, he, ?_, hr⟩
+    rcases hm with hm | ⟨hn, hm⟩
+    · exact Or.inl hm
+    · right
+      refine ⟨hn, ?_⟩
+      cases hfn : f.norm with
+      | none => rw [hfn] at hm; simp at hm
+      | some n => rw [hfn] at hm; exact ⟨n, rfl, by simpa using hm⟩
+  · rintro ⟨f, hf, he, hm, hr⟩
+    refine ⟨f, hf, ⟨he, ?_⟩, hr⟩
+    rcases hm with hm | ⟨hn, n, hfn, hm⟩
+    · exact Or.inl hm
+    · right; rw [hfn]; exact ⟨hn, by simpa using hm⟩
+
+/-- the stored normalized column is NULL exactly when the normalized form equals the form
+(`addForm`), so "normalized form equals the query" covers both columns -/
+theorem C09_lemma_only (db : Db) (forms : List String) (normalized : Bool) (entry : Nat) :
+    formMatch db forms normalized false entry = true →
+      ∃ f ∈ db.forms, f.entry = entry ∧ f.rank = 0 := by
+  intro h
+  obtain ⟨f, hf, he, _, hr⟩ := (C09_form_condition db forms normalized false entry).mp h
+  exact ⟨f, hf, he, by simpa using hr⟩
+
+variable {α : Type}
+
+/-- what the lemmatizer contributes: its proposals, or the query itself when it proposes nothing -/
+def proposals (lemmatize : Option (String → Option String → LemResult)) (form : String) (pos : Option String) : LemResult :=
+  match lemmatize with
+  | some f => let r := f form pos; if r.isEmpty then [(pos, [form])] else r
+  | none => [(pos, [form])]
+
+theorem findHelper_eq (query : List String → Option String → List α) (rowid : α → Nat) (w : Wordnet)
+    (norm : String → String) (lemmatize) (form : String) (pos : Option String) :
+    findHelper query rowid w norm lemmatize form pos =
+      dedupBy rowid
+        (if ((proposals lemmatize form pos).flatMap (fun (p, fs) => query fs p)).isEmpty && w.normalizer
+         then (proposals lemmatize form pos).flatMap (fun (p, fs) => query (fs.map norm) p)
+         else (proposals lemmatize form pos).flatMap (fun (p, fs) => query fs p)) := by
+  unfold findHelper proposals dedupRowid
+  cases lemmatize <;> rfl
+
+/-- **C09_first_pass**: when the first pass finds something, the result is the (de-duplicated)
+union over the proposed (pos, forms) pairs of the exact / normalized-column matches — the query
+itself is *not* normalized -/
+theorem C09_first_pass (query : List String → Option String → List α) (rowid : α → Nat) (w : Wordnet)
+    (norm : String → String) (lemmatize) (form : String) (pos : Option String)
+    (h : (proposals lemmatize form pos).flatMap (fun (p, fs) => query fs p) ≠ []) :
+    findHelper query rowid w norm lemmatize form pos =
+      dedupBy rowid ((proposals lemmatize form pos).flatMap (fun (p, fs) => query fs p)) := by
+  rw [findHelper_eq]
+  have : ((proposals lemmatize form pos).flatMap (fun (p, fs) => query fs p)).isEmpty = false := by
+    simpa [List.isEmpty_iff] using h
+  simp [this]
+
+/-- **C09_backoff**: only if the first pass finds nothing (over *all* proposals) and a normalizer
+is active is the query normalized and matched again -/
+theorem C09_backoff (query : List String → Option String → List α) (rowid : α → Nat) (w : Wordnet)
+    (norm : String → String) (lemmatize) (form : String) (pos : Option String)
+    (h : (proposals lemmatize form pos).flatMap (fun (p, fs) => query fs p) = []) :
+    findHelper query rowid w norm lemmatize form pos =
+      if w.normalizer then dedupBy rowid ((proposals lemmatize form pos).flatMap (fun (p, fs) => query (fs.map norm) p))
+      else [] := by
+  rw [findHelper_eq, h]
+  cases w.normalizer <;> simp [dedupBy]
+
+/-- without a lemmatizer the only proposal is the query itself with the requested pos -/
+theorem C09_no_lemmatizer (form : String) (pos : Option String) : proposals none form pos = [(pos, [form])] := rfl
+
+/-- a lemmatizer that proposes nothing falls back to the query itself -/
+theorem C09_lemmatizer_empty (f : String → Option String → LemResult) (form : String) (pos : Option String)
+    (h : f form pos = []) : proposals (some f) form pos = [(pos, [form])] := by
+  simp [proposals, h]
+
+/-- **C09_nodup**: results contain no duplicates -/
+theorem C09_nodup (query : List String → Option String → List α) (rowid : α → Nat) (w : Wordnet)
+    (norm : String → String) (lemmatize) (form : String) (pos : Option String) :
+    ((findHelper query rowid w norm lemmatize form pos).map rowid).Nodup := by
+  rw [findHelper_eq]; exact dedupBy_nodup rowid _
+
+/-- **C09_sound**: every result is found by some proposed (pos, forms) pair, in the first pass or
+(with the forms normalized) in the back-off -/
+theorem C09_sound (query : List String → Option String → List α) (rowid : α → Nat) (w : Wordnet)
+    (norm : String → String) (lemmatize) (form : String) (pos : Option String) (x : α)
+    (hx : x ∈ findHelper query rowid w norm lemmatize form pos) :
+    ∃ pf ∈ proposals lemmatize form pos, x ∈ query pf.2 pf.1 ∨ (w.normalizer = true ∧ x ∈ query (pf.2.map norm) pf.1) := by
+  rw [findHelper_eq] at hx
+  have hx' := mem_dedupBy rowid _ x hx
+  split at hx'
+  · rename_i hc
+    simp only [Bool.and_eq_true] at hc
+    obtain ⟨pf, hpf, hq⟩ := List.mem_flatMap.mp hx'
+    exact ⟨pf, hpf, Or.inr ⟨hc.2, hq⟩⟩
+  · obtain ⟨pf, hpf, hq⟩ := List.mem_flatMap.mp hx'
+    exact ⟨pf, hpf, Or.inl hq⟩
+
+/-- **C09_complete (union)**: everything any proposed pair finds in the deciding pass is in the
+result (up to identity of the stored entity) -/
+theorem C09_union_complete (query : List String → Option String → List α) (rowid : α → Nat) (w : Wordnet)
+    (norm : String → String) (lemmatize) (form : String) (pos : Option String)
+    (pf : Option String × List String) (hpf : pf ∈ proposals lemmatize form pos) (x : α) (hx : x ∈ query pf.2 pf.1) :
+    ∃ y ∈ findHelper query rowid w norm lemmatize form pos, rowid y = rowid x := by
+  have hne : (proposals lemmatize form pos).flatMap (fun (p, fs) => query fs p) ≠ [] := by
+    intro he
+    have : x ∈ (proposals lemmatize form pos).flatMap (fun (p, fs) => query fs p) :=
+      List.mem_flatMap.mpr ⟨pf, hpf, hx⟩
+    rw [he] at this; simp at this
+  rw [C09_first_pass query rowid w norm lemmatize form pos hne]
+  exact key_mem_dedupBy rowid _ x (List.mem_flatMap.mpr ⟨pf, hpf, hx⟩)
+
+/-- `normalized_form` is stored only when it differs from the form (`_insert_forms`) -/
+theorem C09_norm_column (db : Db) (norm : String → String) (lexid entry : Nat) (id : Option String)
+    (form : String) (script : Option String) (rank : Nat) (db' : Db)
+    (h : addForm db norm lexid entry id form script rank = .ok db') :
+    ∃ row, db'.forms = db.forms ++ [row] ∧ row.form = form ∧ row.entry = entry ∧ row.rank = rank ∧
+      row.norm = (if norm form = form then none else some (norm form)) := by
+  unfold addForm at h
+  simp only [bind, Except.bind, pure, Except.pure] at h
+  split at h
+  · simp at h
+  · simp at h
+    subst h
+    exact ⟨_, rfl, rfl, rfl, rfl, rfl⟩
+
 end WnVerif.Props.C09
